@@ -1,5 +1,5 @@
 From Tramp Require Import Model.Base Model.Fee Model.Classify Model.Node Model.Provider Model.ProviderSys Model.Sys.
-From Tramp Require Import Proofs.SysBasics Proofs.SysShape Proofs.SysTheorems Proofs.SysTimers Proofs.SysReach Proofs.SysCalls Proofs.SysNode Proofs.SysSafety Proofs.SysLive Proofs.SysTerm Props.C06.
+From Tramp Require Import Proofs.SysBasics Proofs.SysShape Proofs.SysTheorems Proofs.SysTimers Proofs.SysReach Proofs.SysCalls Proofs.SysNode Proofs.SysSafety Proofs.SysLive Proofs.SysTerm Proofs.SysAccount Props.C06.
 Check C06_held_or_answered : forall c s h,
   (exists en, entry_ (pl (fst (step c s (EvHtlc h)))) = Some en /\ In h (listeners en)) \/
   (exists r, In (OResp (hid h) r) (snd (step c s (EvHtlc h)))).
@@ -45,6 +45,11 @@ Check C06_at_rest_means_all_answered : forall c n t0 h0 a0 evs,
   (forall ev, progress_ev s ev = true -> ev_wf true s ev -> ~ seffective c s ev) -> entry_ (pl s) = None.
 Check (eq_refl : progress_ev = fun s ev => match ev with
   | EvProcess _ _ | EvDeliver _ _ | EvPoll _ | EvPart _ _ | EvPayFinish _ _ => true | EvTick _ => timer_armed s | _ => false end).
+Check C06_no_htlc_is_silently_dropped : forall c evs s h,
+  In h (lis (entry_ (pl s))) \/ In (EvHtlc h) evs ->
+  In h (lis (entry_ (pl (fst (run c s evs))))) \/ answered_in (hid h) (snd (run c s evs)) \/ In EvCrash evs.
+Check (eq_refl : answered_in = fun x os => exists o r, In o os /\ In (OResp x r) o).
+Check (eq_refl : lis = fun e => match e with Some en => listeners en | None => [] end).
 Print Assumptions C06_every_held_htlc_is_answered.
 Print Assumptions C06_held_or_answered.
 Print Assumptions C06_poll_held_or_answered.
@@ -55,3 +60,4 @@ Print Assumptions C06_answered_at_deadline.
 Print Assumptions C06_no_internal_divergence.
 Print Assumptions C06_progress_runs_are_bounded.
 Print Assumptions C06_at_rest_means_all_answered.
+Print Assumptions C06_no_htlc_is_silently_dropped.
